@@ -9,12 +9,15 @@ fn main() {
         .position(|x| x == "--gen")
         .and_then(|i| a.extra.get(i + 1).cloned())
         .unwrap_or_else(|| "mix".to_string());
-    drive(move |_i, r| {
+    drive(move |i, r| {
         if gen == "c07" {
             return gens::gen_c07(r);
         }
         if gen == "c01" {
             return net::gen_c01(r);
+        }
+        if gen == "warm" {
+            return gens::gen_warm(i as u64, r);
         }
         let (class, sim) = match gen.as_str() {
             "mix" => gens::gen_mix(r),
